@@ -4,6 +4,7 @@ mod deep;
 mod errs;
 mod gen;
 mod insp;
+mod reccell;
 mod replay;
 mod run;
 mod stat;
@@ -169,6 +170,24 @@ fn real_main(cmd: String, args: Vec<String>) -> i32 {
                 0
             } else {
                 1
+            }
+        }
+        "reccell" => {
+            // cvh reccell --file <TLC log with RECCELL lines>: handle histories of spec/RecCell.tla on real Recursive values
+            let file = arg(&args, "--file").expect("--file");
+            match reccell::replay_file(&file) {
+                Ok(st) => {
+                    println!("{}", json!({"histories": st.histories, "steps": st.steps, "parses": st.parses, "n_mismatch": st.n_mismatch, "mismatches": st.mismatches}));
+                    if st.n_mismatch > 0 {
+                        1
+                    } else {
+                        0
+                    }
+                }
+                Err(e) => {
+                    eprintln!("reccell error: {e}");
+                    2
+                }
             }
         }
         "deepcases" => {
